@@ -1,7 +1,7 @@
 #!/usr/bin/env python3
 """Render the seeded-changes table (DESIGN section 14) from seeded/*/meta.json and the logs of the final sweep."""
 import json, glob, os, re, sys
-logdir = sys.argv[1] if len(sys.argv) > 1 else "/var/tmp/seedrun_final"
+logdir = sys.argv[1] if len(sys.argv) > 1 else os.path.join(os.path.dirname(os.path.dirname(os.path.abspath(__file__))), "seeded", "_final_sweep_logs")
 NOTES = {
  "C02-bundle-precheck-bounded-by-len": "first missed (exit 2: with the capacity fed into the element scan every loop exit is symbolic and the symbolic-capacity obligations time out); caught since the concrete-capacity family `C02.bundle_cap.*` was added",
  "C06-ring_write-two-step-publication": "first missed (exit 2: the chunked copy loop has no loop contract, the unbounded obligations cannot finish); caught since `C06.ring_write.order_small` (bounded, ring <= 8) and the native schedule demonstration `C06.schedule.copy_points` were added",
